@@ -68,11 +68,12 @@ VARIANTS = {
 }
 
 def _prune(keep):
-    """keep at most 3 build dirs (most recently used) besides `keep`."""
+    """remove build dirs that have not been used for 3 hours, beyond the 10 most recent (other checks may be using the recent ones)."""
     ds = [d for d in glob.glob(os.path.join(CACHE, "build-*")) if os.path.isdir(d) and d != keep]
     ds.sort(key=lambda d: os.path.getmtime(d), reverse=True)
-    for d in ds[3:]:
-        shutil.rmtree(d, ignore_errors=True)
+    now = time.time()
+    for d in ds[10:]:
+        if now - os.path.getmtime(d) > 3 * 3600: shutil.rmtree(d, ignore_errors=True)
 
 def get_build(variant="plain"):
     """Build libmpir.a from /repo's current working tree (copy -> make clean -> make).  Cached by
